@@ -483,6 +483,18 @@ def smallest_failing(o, pred):
         kids = [o.integrand()]
     elif isinstance(o, Expr):
         kids = [x for x in o.ufl_operands if is_ufl(x)]
+        if hasattr(o, "argument_slots"):
+            kids += [x for x in o.argument_slots() if is_ufl(x)]
+    elif isinstance(o, BaseForm):
+        tn = clsname(o)
+        if tn == "FormSum":
+            kids = list(o.components())
+        elif tn == "Action":
+            kids = [o.left(), o.right()]
+        elif tn == "Adjoint":
+            kids = [o.form()]
+        elif tn == "ZeroBaseForm":
+            kids = list(o.ufl_operands)
     for k in kids:
         try:
             bad = pred(k)
@@ -1085,6 +1097,12 @@ def fam_baseforms(W):
     F.add({"formsum": "3*c5"}, lambda: 3 * c5())
     F.add({"formsum": "-c5"}, lambda: -c5())
     a11 = lambda: u1 * v1 * dx
+    a12 = lambda: f * u1 * v1 * dx
+    F.add({"adjoint": "adjoint(a11)"}, lambda: UC.Adjoint(a11()))
+    F.add({"adjoint": "adjoint(a12)"}, lambda: UC.Adjoint(a12()))
+    F.add({"action": "action(a11,f)"}, lambda: UC.Action(a11(), f))
+    F.add({"action": "action(a12,f)"}, lambda: UC.Action(a12(), f))
+    F.add({"action": "action(a11,g)"}, lambda: UC.Action(a11(), Coefficient(V1, count=52)))
     F.add({"adjoint": "adjoint(M5)"}, lambda: UC.Adjoint(UC.Matrix(V1, V1, count=5)))
     F.add({"adjoint": "adjoint(M6)"}, lambda: UC.Adjoint(UC.Matrix(V1, V1, count=6)))
     F.add({"action": "action(M5,f)"}, lambda: UC.Action(UC.Matrix(V1, V1, count=5), f))
